@@ -291,7 +291,7 @@ func (oc *outsChecker) checkFile(outPath string, exp, act interface{}, where str
 		} else if got != want {
 			oc.add("output-content-differs", fmt.Sprintf("%s: %s holds %q, the stage wrote %q", where, rel, got, want))
 		}
-		if b, err := os.ReadFile(v); err != nil || string(b) != r.ExtFiles[v] {
+		if b, err := os.ReadFile(v); err != nil || string(b) != r.ExtFiles[r.given(v)] {
 			oc.add("outside-file-touched", fmt.Sprintf("%s: the file outside the pipestance %s was moved or changed", where, v))
 		}
 		return
